@@ -124,6 +124,7 @@ type c10Case struct {
 	Ctx  time.Duration `json:"ctx"`
 	Rand float64       `json:"rand"`
 	Wrap int           `json:"wrap,omitempty"` // how the write context is composed around the TTL, see c10Wraps
+	Pre  int           `json:"pre,omitempty"`  // the key already holds an entry: 1 = written with a context TTL of +7h, 2 = of -7h, 3 = written and then expired by ExpireAll
 }
 
 // c10Wraps: the context TTL has to survive the other context helpers and derived contexts around it.
@@ -190,8 +191,25 @@ func c10One(cc c10Cell, cs c10Case) (string, string, int) {
 	}
 
 	key := []byte("k")
-	t := vclock.NowQuiet().UnixNano()
 	ops := 0
+
+	// the key's history must not matter: the entry written last decides
+	switch cs.Pre {
+	case 1:
+		_ = b.Write(cache.WithTTL(ctx, 7*time.Hour, false), key, 1)
+	case 2:
+		_ = b.Write(cache.WithTTL(ctx, -7*time.Hour, false), key, 1)
+	case 3:
+		_ = b.Write(ctx, key, 1)
+		b.ExpireAll(ctx)
+	}
+
+	if cs.Pre != 0 {
+		vclock.Advance(time.Second)
+		ops++
+	}
+
+	t := vclock.NowQuiet().UnixNano()
 
 	if err := b.Write(wctx, key, 7); err != nil {
 		return "write-failed", err.Error(), ops
@@ -352,6 +370,20 @@ func c10Cases(cc c10Cell, tier string) []c10Case {
 		}
 	}
 
+	// every case of the grid with a bare context once more on a key that already holds an entry
+	n := len(cases)
+	for i := 0; i < n; i++ {
+		if cases[i].Wrap != 0 {
+			continue
+		}
+
+		for pre := 1; pre <= 3; pre++ {
+			c := cases[i]
+			c.Pre = pre
+			cases = append(cases, c)
+		}
+	}
+
 	return cases
 }
 
@@ -386,7 +418,7 @@ func c10Run(c Cell, env *Env) CellResult {
 				seen[sig] = true
 				js, _ := json.Marshal(cs)
 				res.Violations = append(res.Violations, Violation{
-					Signature: sig, Detail: fmt.Sprintf("%s (config TTL %v, context TTL %v as %s, jitter %v, rand %v)", detail, cs.Cfg, cs.Ctx, c10Wraps[cs.Wrap], cc.Jitter, cs.Rand), Extra: js,
+					Signature: sig, Detail: fmt.Sprintf("%s (config TTL %v, context TTL %v as %s, jitter %v, rand %v, earlier entry of the key: %s)", detail, cs.Cfg, cs.Ctx, c10Wraps[cs.Wrap], cc.Jitter, cs.Rand, []string{"none", "context TTL +7h", "context TTL -7h", "expired by ExpireAll"}[cs.Pre]), Extra: js,
 				})
 			}
 
@@ -409,7 +441,7 @@ func init() {
 	Register(&Prop{
 		ID: "C10", Title: "Every entry's expiry lies within the documented TTL bounds",
 		Cells: c10Cells, Run: c10Run,
-		Rule: "complete grid |TTL| in {1ns,1us,1s,5m,24h,10y,...} x sign x level {config, context, both, unlimited, unlimited+context} x context composition {WithTTL alone, WithSkipRead outside / inside it, derived WithValue+WithCancel context, nested WithTTL scopes (inner shadows outer, also with the default TTL), zero-valued holder updated in place} x ExpirationJitter {-1, default, 0.01, 0.5, 1} " +
+		Rule: "complete grid |TTL| in {1ns,1us,1s,5m,24h,10y,...} x sign x level {config, context, both, unlimited, unlimited+context} x context composition {WithTTL alone, WithSkipRead outside / inside it, derived WithValue+WithCancel context, nested WithTTL scopes (inner shadows outer, also with the default TTL), zero-valued holder updated in place} x key history {fresh key, key already written with a context TTL of +7h / -7h, key written and expired by ExpireAll} x ExpirationJitter {-1, default, 0.01, 0.5, 1} " +
 			"x rand.Float64 answer grid incl. both extremes x 3 backends; per case: Write at exact virtual instant t, Walk for ExpireAt, bounds check in exact rational arithmetic, " +
 			"read 1ns before and 1ns after the expiry instant, ExpiredAt == ExpireAt",
 		Assumptions: []string{
